@@ -1,4 +1,5 @@
 //! Passthrough-filesystem monitors: C05 C06 C08 C09 C15 C16 C18 (and the stack half of C12).
+mod c05;
 mod c06;
 mod c08;
 mod c15;
@@ -13,7 +14,11 @@ fn main() {
     let args = Args::parse();
     let mut rep = Report::new(&args);
     vkit::xport::install_panic_hook();
+    // PassthroughFs::import() sets the process umask to 0 anyway; do it up front so that every
+    // case (not only those after the first import) sees the same modes
+    unsafe { libc::umask(0) };
     match args.prop.as_str() {
+        "C05" => c05::run(&args, &mut rep),
         "C06" => c06::run(&args, &mut rep),
         "C08" => c08::run(&args, &mut rep),
         "C15" => c15::run(&args, &mut rep),
